@@ -1223,6 +1223,44 @@ SECTION_LENGTH = {'lower_bounds': 'num_vars', 'upper_bounds': 'num_vars', 'var_t
                   'constr_lower_cs': 'num_constraints', 'constr_upper_cs': 'num_constraints', 'qs_non_zeroes': 'num_constraints', 'bs_non_zeroes': 'num_constraints'}
 
 
+LEN_CHANGERS = ('push', 'push_back', 'resize', 'resize_with', 'truncate', 'pop', 'insert', 'remove', 'swap_remove', 'extend', 'extend_from_slice', 'append', 'clear', 'drain', 'retain',
+                'dedup', 'dedup_by', 'dedup_by_key', 'split_off', 'set_len')
+
+
+def returned_vec_length(ctx, body, param, depth=4):
+    """problems with "the Vec this reader returns has exactly `param` elements on every success path": it must be allocated from the count
+    (`vec![x; n]`, `repeat(x).take(n).collect()`, `resize(n, x)` once on an empty Vec) -- not grown as entries arrive -- and never change its
+    length afterwards; a reader that only delegates (`self.consume_list_of_maps(size, ..)`) is decided in the callee"""
+    probs = []
+    def is_param(o):
+        return o['k'] in ('copy', 'move') and T.strip_wrappers(T.expr(body, o)) == ('place', param, [])
+    rets = []
+    for bi, st in body.stmts():
+        if st['dst'] == {'l': 0, 'p': []} and st['rv']['k'] == 'agg' and st['rv']['adt'].endswith('Result::Ok') and st['rv']['ops']: rets.append(('agg', bi, st['rv']['ops'][0]))
+    for c in body.calls:
+        if c.dst == {'l': 0, 'p': []} and 'FromResidual' not in c.name: rets.append(('call', c.bb, c))
+    if not rets: return ['no success value found in %s' % body.name.split('::')[-1]]
+    for kind, bi, x in rets:
+        if kind == 'call':
+            cb = ctx.F.bodies.get(x.path) or ctx.F.bodies.get(x.name)
+            ks = [i + 1 for i, a in enumerate(x.args) if is_param(a)]
+            if cb is None or cb.kind != 'fn' or len(ks) != 1 or depth <= 0: probs.append('%s: the result comes from `%s`, which is not given the count' % (body.site(bi), x.item)); continue
+            probs += returned_vec_length(ctx, cb, ks[0], depth - 1); continue
+        root = value_root(body, x)
+        ds = [d for d in body.defs_of(root) if not (d[0] == 'stmt' and d[2]['dst']['p'])] if root is not None else []
+        alloc = None
+        if len(ds) == 1 and ds[0][0] == 'call':
+            c = [y for y in body.calls if y.bb == ds[0][1]][0]
+            if c.item == 'from_elem' and len(c.args) == 2 and is_param(c.args[1]): alloc = 'vec![x; n]'
+            elif c.item in ('collect', 'from_iter') and any(y.item == 'take' and len(y.args) == 2 and is_param(y.args[1]) for y in ctx.S.slice_operand(body, c.args[0]).call_objs): alloc = 'take(n).collect()'
+        changers = [c for c in body.calls if c.item in LEN_CHANGERS and c.args and c.args[0]['k'] in ('copy', 'move') and value_root(body, c.args[0]) == root and 'Vec' in c.name]
+        if alloc is None and len(changers) == 1 and changers[0].item == 'resize' and len(changers[0].args) == 3 and is_param(changers[0].args[1]) and innermost_loop(body, changers[0].bb) is None:
+            alloc = 'resize(n, x)'; changers = []
+        if alloc is None: probs.append('%s: the returned list is not allocated from the declared count' % body.site(bi))
+        if changers: probs.append('%s: the length of the returned list is changed by %s' % (body.site(changers[0].bb), sorted({c.item for c in changers})))
+    return probs
+
+
 def count_rules(ctx, b, st, readers):
     """(1) every list section is read / filled with the length the format gives it; (2) wherever an index taken from a section is compared
     with a count (a validation such as `keys().all(|&i| i < limit)`, written anywhere, also in a helper new on this tree), the count is the one
@@ -1262,6 +1300,17 @@ def count_rules(ctx, b, st, readers):
         got = sorted({str(count_kind(a)) for c, a in sized})
         if not sized: continue          # e.g. var_types of I problems come out of integer_to_binary; the reader rules report a missing reader
         ctx.check(got == [want], R + '/length/' + f, 'T-CARRY', b.name, 'QplibFile.%s is read / filled with length %s, the format says %s' % (f, got, want), b.site(sized[0][0].bb))
+    # (1b) the list a reader returns has exactly the length it was given (so zipping the lists later loses nothing)
+    done = set()
+    for f, want in SECTION_LENGTH.items():
+        op = agg_field_operand(st, f)
+        for c in origin_calls(b, op) if op is not None else []:
+            if not (c.path.startswith('qplib::parser::FileCursor') and c.item in ('collect_list', 'collect_list_of_i_val', 'collect_list_of_ij_val') and len(c.args) == 2) or c.item in done: continue
+            done.add(c.item)
+            cb = ctx.F.bodies.get(c.path) or ctx.F.bodies.get(c.name)
+            if cb is None: ctx.lost(R + '/returned-length/' + c.item, c.path); continue
+            probs = returned_vec_length(ctx, cb, 2)
+            ctx.check(not probs, R + '/returned-length/' + c.item, 'T-LOOPMUST', cb.name, 'the list returned by %s need not have the declared number of elements: %s' % (c.item, '; '.join(probs[:3])), cb.site())
     # (2) index validations
     inv = {}
     for f in SECTION_RANGE:
@@ -1566,6 +1615,56 @@ def _count_use(b, c, limit=80):
     return None
 
 
+def lines_read(ctx, body, _memo=None, _stack=()):
+    """how many lines of the file a cursor method consumes per call: 'none' | 'one' | 'many'.  The primitive is the method that advances
+    `line_num` itself; a method is 'many' if it makes a cursor-advancing call in a loop, or two that can follow each other."""
+    _memo = _memo if _memo is not None else ctx.__dict__.setdefault('_c19_lines', {})
+    if body.name in _memo: return _memo[body.name]
+    if body.name in _stack: return 'many'
+    if any(st['dst']['p'] and any(f == 'line_num' for a, f in fields_of_place(st['dst'])) for bi, st in body.stmts()):
+        _memo[body.name] = 'one'; return 'one'
+    adv = advancing_calls(ctx, body, _memo, _stack + (body.name,))
+    res = 'none'
+    if adv:
+        res = 'one'
+        if any(k == 'many' or innermost_loop(body, c.bb) is not None for c, k in adv): res = 'many'
+        elif any(c2.bb in body.reach([c1.target]) for c1, k1 in adv for c2, k2 in adv if c1 is not c2 and c1.target >= 0): res = 'many'
+    _memo[body.name] = res
+    return res
+
+
+def advancing_calls(ctx, body, _memo=None, _stack=()):
+    """(call, 'one' | 'many') for the calls in `body` that advance the cursor"""
+    out = []
+    for c in body.calls:
+        cb = ctx.F.bodies.get(c.path) or ctx.F.bodies.get(c.name)
+        if cb is None or cb.kind != 'fn' or 'qplib::parser::FileCursor' not in (cb.hdr.get('self') or '') or cb.argc < 1 or not cb.locals[1].lstrip().startswith('&mut'): continue
+        k = lines_read(ctx, cb, _memo, _stack)
+        if k != 'none': out.append((c, k))
+    return out
+
+
+def line_of_entry_rules(ctx, cur):
+    """errors carry the line number OF THE OFFENDING LINE: wherever a cursor method builds a line-numbered error (invalid_line / with_line /
+    unexpected_eof with the cursor's line_num), the cursor-advancing call that ran last before it read exactly one line -- a call that reads a
+    whole section (consume_map, collect_i_val, ..) leaves line_num at the section's last line, and an error built after it points there."""
+    R = 'C19.errors/line-of-entry'
+    fns = [b for b in cur if b.kind == 'fn']
+    fl = from_lines(ctx)
+    if fl is not None: fns.append(fl)
+    for b in fns:
+        sites = [(c.bb, c.item) for c in b.calls if c.item in ('with_line', 'invalid_line', 'unexpected_eof') and c.path.startswith('qplib::')]
+        for bi, st, cl in b.closures_created():           # an error built in a closure (`map_err(|e| e.with_line(self.line_num))`) counts where the closure is made
+            cb = ctx.F.bodies.get(cl)
+            if cb is not None: sites += [(bi, c.item) for c in cb.calls if c.item in ('with_line', 'invalid_line', 'unexpected_eof') and c.path.startswith('qplib::')]
+        if not sites: continue
+        adv = advancing_calls(ctx, b)
+        single = {c.bb for c, k in adv if k == 'one'}
+        for ebb, item in sites:
+            late = [c for c, k in adv if k == 'many' and c.target >= 0 and ebb in b.reach([c.target]) and not T.must_pass(b, c.target, {ebb}, single)]
+            ctx.check(not late, R, 'T-ERRFLOW', b.name, 'the %s error can be built right after `%s`, which reads a whole section: the line number is the section\'s last line, not the offending one' % (item, late[0].item if late else ''), b.site(ebb))
+
+
 def count_type_rules(ctx, cur):
     """malformed counts are errors: every number read from the file that is used as a count is parsed as an UNSIGNED integer, so that `-1`
     (and `2.5`) is a parse error with the line number instead of an empty / truncated loop.  The instantiation is read off the resolved
@@ -1671,6 +1770,7 @@ def errors_rules(ctx):
                 if any(x[0] == 'call' and x[1] in ('parse', 'parse_or_err_with_line') for x in T.expr_walk(ix)) or any(x[0] == 'proj' and x[1][0] == 'call' and 'Fn' in x[1][2] for x in T.expr_walk(ix)):
                     ctx.bad(R + '/index-out-of-range', 'T-GUARD', b.name, 'a table is indexed with a value taken from the file without a range check', b.site(c.bb))
     count_type_rules(ctx, cur)
+    line_of_entry_rules(ctx, cur)
     ctx.floor('C19.errors', 20)
 
 
@@ -2402,5 +2502,5 @@ def enum_rows(ctx, b, ty, pick):
 
 def check(ctx):
     codes_rules(ctx); section_rules(ctx); token_rules(ctx); errors_rules(ctx); convert_rules(ctx)
-    ctx.floor('C19.codes', 15); ctx.floor('C19.sections', 46); ctx.floor('C19.convert.cover', 19); ctx.floor('C19.infinity', 3)
+    ctx.floor('C19.codes', 15); ctx.floor('C19.sections', 49); ctx.floor('C19.convert.cover', 19); ctx.floor('C19.infinity', 3)
     ctx.floor('C19.convert.half', 4); ctx.floor('C19.convert.sign', 15); ctx.floor('C19.convert.b0', 8); ctx.floor('C19.convert.wrap', 2); ctx.floor('C19.convert.vars', 4); ctx.floor('C19.vartypes', 3); ctx.floor('C19.convert.terms', 6); ctx.floor('C19.tokens', 7)
